@@ -528,7 +528,23 @@ class Interp:
             raise Unsupported("no arm matched")
         if k == "call":
             f = self.funcs[e[2]]
-            args = [self.expr(a, env) for a in e[3]]
+            names = e[4] if len(e) > 4 else None
+            if names is None and len(e[3]) == len(f["params"]):
+                args = [self.expr(a, env) for a in e[3]]
+            else:
+                # named / omitted arguments: bound like the positional call with the defaults filled
+                # in, and evaluated in parameter order
+                names = names or (None,) * len(e[3])
+                pnames = [pn for pn, _ in f["params"]]
+                slot = {}
+                for i, (a, nm) in enumerate(zip(e[3], names)):
+                    slot[i if nm is None else pnames.index(nm)] = a
+                args = []
+                for i in range(len(pnames)):
+                    if i in slot:
+                        args.append(self.expr(slot[i], env))
+                    else:
+                        args.append(self.expr(f["defaults"][i], [self.globals]))
             return self.call(Closure(f["params"], f["body"], [self.globals], f["name"]), args)
         if k == "calll":
             clo = self.expr(e[2], env)
@@ -686,7 +702,8 @@ def pexpr(e, em=None, top=False):
         s = "match %s { %s }" % (pexpr(e[2]), arms)
         return "(%s)" % s if not top else s
     if k == "call":
-        return "%s(%s)" % (e[2], LSEP.join(pexpr(a) for a in e[3]))
+        names = e[4] if len(e) > 4 and e[4] else (None,) * len(e[3])
+        return "%s(%s)" % (e[2], LSEP.join(pexpr(a) if nm is None else "%s = %s" % (nm, pexpr(a)) for a, nm in zip(e[3], names)))
     if k == "calll":
         return "%s(%s)" % (pexpr(e[2]), LSEP.join(pexpr(a) for a in e[3]))
     if k == "lam":
@@ -857,7 +874,9 @@ def emit(prog, before_main=None):
         for v, ts in variants:
             em.w("  | %s%s" % (v, ("(" + ", ".join(ann(t) for t in ts) + ")") if ts else ""))
     for f in prog["funcs"]:
-        ps = LSEP.join("%s: %s" % (n, f.get("param_anns", {}).get(n) or ann(t)) for n, t in f["params"])
+        dfl = f.get("defaults") or {}
+        ps = LSEP.join("%s: %s%s" % (n, f.get("param_anns", {}).get(n) or ann(t), (" = " + pexpr(dfl[i])) if i in dfl else "")
+                       for i, (n, t) in enumerate(f["params"]))
         em.w("fn %s(%s) -> %s {" % (f["name"], ps, ann(f["ret"])))
         em.ind += 1
         b = f["body"]
@@ -1093,7 +1112,7 @@ class Gen:
             if fs:
                 f = r.choice(fs)
                 self.features.add("call")
-                return ("call", ty, f["name"], [self.expr(t, d - 1) for _, t in f["params"]])
+                return self.call_node(f, d)
         if k < 58:
             # field of a struct variable / element of an array variable
             cands = []
@@ -1595,7 +1614,7 @@ class Gen:
         fs = [f for f in self.funcs if f.get("callable", True)]
         if fs:
             f = r.choice(fs)
-            e = ("call", f["ret"], f["name"], [self.expr(t, d - 1) for _, t in f["params"]])
+            e = self.call_node(f, d)
             self.features.add("call-stmt")
             if f["ret"] != VOID:
                 n = self.fresh("x")
@@ -1823,11 +1842,56 @@ class Gen:
         self.features.add("generic-func")
         self.generics.append(f)
 
+    def default_expr(self, ty):
+        """a closed expression (it is evaluated by the caller: no parameter, no local is in scope)"""
+        saved = (self.scopes, self.ret_ty, self.loop_depth, self.in_lambda, self.in_expr, self.fuel, getattr(self, "lambda_base", 0))
+        self.scopes = [Scope()]
+        self.ret_ty = None
+        self.loop_depth = 0
+        self.in_lambda = 0
+        self.in_expr = 0
+        self.lambda_base = 0
+        self.fuel = 6
+        try:
+            return self.expr(ty, self.r.range(0, 2))
+        finally:
+            self.scopes, self.ret_ty, self.loop_depth, self.in_lambda, self.in_expr, self.fuel, self.lambda_base = saved
+
+    def call_node(self, f, d):
+        """call of an ordinary function: positional, or a positional prefix followed by named
+        arguments in any order, arguments with defaults left off"""
+        r = self.r
+        params = f["params"]
+        dfl = f.get("defaults") or {}
+        full = [self.expr(t, d - 1) for _, t in params]
+        if not params or (not dfl and not r.chance(12)):
+            return ("call", f["ret"], f["name"], full)
+        n = len(params)
+        p = r.range(0, n)
+        args, names = [full[i] for i in range(p)], [None] * p
+        chosen = [i for i in range(p, n) if i not in dfl or r.chance(45)]
+        if r.chance(50):
+            r.shuffle(chosen)
+        for i in chosen:
+            args.append(full[i])
+            names.append(params[i][0])
+        if len(args) < n:
+            self.features.add("call-defaults-left-off")
+        if any(names):
+            self.features.add("call-named")
+        return ("call", f["ret"], f["name"], args, tuple(names))
+
     def gen_func(self, idx):
         r = self.r
         name = "fun%d" % idx
         nparams = r.range(0, 3)
-        params = [(self.fresh("a"), self.rand_type(1, allow_fn=r.chance(20))) for _ in range(nparams)]
+        params = [(self.fresh("a"), VOID if r.chance(7) else self.rand_type(1, allow_fn=r.chance(20))) for _ in range(nparams)]
+        defaults = {}
+        if self.cfg.get("defaults", True):
+            for i, (pn, pt) in enumerate(params):
+                if r.chance(28):
+                    defaults[i] = self.default_expr(pt)
+                    self.features.add("default-" + ("literal" if defaults[i][0] == "lit" else "expression"))
         k = r.below(10)
         if k < 6:
             ret = self.rand_type(1)
@@ -1850,7 +1914,7 @@ class Gen:
         self.fuel = saved_fuel
         self.ret_ty = None
         self.scopes = saved_scopes
-        f = {"name": name, "params": params, "ret": ret, "body": body}
+        f = {"name": name, "params": params, "ret": ret, "body": body, "defaults": defaults}
         if r.chance(40):
             # effectful: print a marker first so that evaluation order is observable
             body[2].insert(0, ("print", ("lit", STR, "<%s>" % name), False))
